@@ -39,6 +39,8 @@ QUICK_UNION = {
 QUICK_UNION['C01'] = ['deflate_header_unaligned_bc0', 'deflate_header_unaligned_bc3', 'deflate_header_unaligned_bc7',
                       'deflate_header_stateless', 'bb_write_bits', 'write_type0_header', 'sync_flush', 'write_trailer',
                       'write_constant_compressed_hi', 'isal_deflate_body_base_site', 'isal_deflate_finish_base_site']
+# C02: the verifying trailer checks also fix the reported end-of-stream position (bits consumed exactly)
+QUICK_UNION['C02'] = ['check_zlib_checksum_c2', 'check_gzip_checksum_c2', 'check_zlib_checksum_c0']
 _by_name = {h.name: h for h in HARNESSES}
 for _pid, _names in QUICK_UNION.items():
     for _n in _names:
